@@ -1,29 +1,46 @@
 /-
-Helper lemmas for C25 (part 4, uses Mathlib's ordered-field structure on ℚ): end points and bounds of
-`linspace`, `min`/`max` of a position list.
+Helper lemmas for C25 (part 4, core Lean only -- `grind` does the ordered-field arithmetic on ℚ):
+end points and bounds of `linspace`, `min`/`max` of a position list.
 -/
 import BlueskyVerif.Pure.StepScan
-import Mathlib.Algebra.Order.Field.Rat
-import Mathlib.Tactic.Linarith
-import Mathlib.Tactic.FieldSimp
-import Mathlib.Tactic.Ring
 namespace BlueskyVerif.Pure.StepScan
 open BlueskyVerif.Pure
 
 theorem linspace_first (a b : Rat) (n : Nat) (hn : 0 < n) : (linspace a b n)[0]? = some a := by
-  simp [linspace, hn]
+  simp [linspace, hn, Rat.add_zero]
+
+theorem natCast_succ_sub_one (m : Nat) : ((m + 1 : Nat) : Rat) - 1 = (m : Rat) := by
+  rw [Rat.natCast_add]; grind
 
 theorem linspace_last (a b : Rat) (n : Nat) (hn : 2 ≤ n) : (linspace a b n)[n - 1]? = some b := by
-  have h1 : n - 1 < n := by omega
-  simp only [linspace, List.getElem?_map, List.getElem?_range h1, Option.map_some, Option.some.injEq]
-  have hc : ((n - 1 : Nat) : Rat) = (n : Rat) - 1 := by
-    rw [Nat.cast_sub (by omega)]; simp
-  rw [hc]
-  have hne : (n : Rat) - 1 ≠ 0 := by
-    have : (2 : Rat) ≤ (n : Rat) := by exact_mod_cast hn
-    linarith
-  field_simp
-  ring
+  obtain ⟨m, rfl⟩ : ∃ m, n = m + 1 := ⟨n - 1, by omega⟩
+  have h1 : m < m + 1 := by omega
+  simp only [Nat.add_sub_cancel, linspace, List.getElem?_map, List.getElem?_range h1, Option.map_some,
+    Option.some.injEq, natCast_succ_sub_one]
+  have hm : (0 : Rat) < (m : Rat) := by
+    have : (0 : Nat) < m := by omega
+    exact_mod_cast (Rat.natCast_lt_natCast.mpr this)
+  have h4 : (m : Rat) * ((b - a) / (m : Rat)) = b - a := by grind
+  grind
+
+theorem lin_between (a b d k : Rat) (hd : 0 < d) (hk0 : 0 ≤ k) (hk1 : k ≤ d) :
+    min a b ≤ a + k * ((b - a) / d) ∧ a + k * ((b - a) / d) ≤ max a b := by
+  have h4 : d * ((b - a) / d) = b - a := by grind
+  rcases Rat.le_total (a := a) (b := b) with hab | hab
+  · have h1 : 0 ≤ (b - a) / d := by
+      rw [Rat.div_def]
+      exact Rat.mul_nonneg (by grind) (Rat.le_of_lt (Rat.inv_pos.mpr hd))
+    have h2 : 0 ≤ k * ((b - a) / d) := Rat.mul_nonneg hk0 h1
+    have h3 : 0 ≤ (d - k) * ((b - a) / d) := Rat.mul_nonneg (by grind) h1
+    constructor <;> grind
+  · have h1 : 0 ≤ (a - b) / d := by
+      rw [Rat.div_def]
+      exact Rat.mul_nonneg (by grind) (Rat.le_of_lt (Rat.inv_pos.mpr hd))
+    have h5 : d * ((a - b) / d) = a - b := by grind
+    have h2 : 0 ≤ k * ((a - b) / d) := Rat.mul_nonneg hk0 h1
+    have h3 : 0 ≤ (d - k) * ((a - b) / d) := Rat.mul_nonneg (by grind) h1
+    have h6 : (a - b) / d = - ((b - a) / d) := by grind
+    constructor <;> grind
 
 theorem linspace_bounds (a b : Rat) (n : Nat) (x : Rat) (hx : x ∈ linspace a b n) :
     min a b ≤ x ∧ x ≤ max a b := by
@@ -32,26 +49,14 @@ theorem linspace_bounds (a b : Rat) (n : Nat) (x : Rat) (hx : x ∈ linspace a b
   rcases Nat.lt_or_ge n 2 with hn | hn
   · have hk0 : k = 0 := by omega
     subst hk0
-    simp
-  · have hd : (0 : Rat) < (n : Rat) - 1 := by
-      have : (2 : Rat) ≤ (n : Rat) := by exact_mod_cast hn
-      linarith
-    have hk1 : (k : Rat) ≤ (n : Rat) - 1 := by
-      have : (k : Rat) + 1 ≤ (n : Rat) := by exact_mod_cast hk
-      linarith
-    have hk0 : (0 : Rat) ≤ (k : Rat) := by positivity
-    set t : Rat := (k : Rat) / ((n : Rat) - 1) with ht
-    have ht0 : 0 ≤ t := div_nonneg hk0 hd.le
-    have ht1 : t ≤ 1 := by rw [ht, div_le_iff₀ hd]; linarith
-    have hx : a + (k : Rat) * ((b - a) / ((n : Rat) - 1)) = a + t * (b - a) := by
-      rw [ht]; field_simp
-    rw [hx]
-    rcases le_total a b with hab | hab
-    · rw [min_eq_left hab, max_eq_right hab]
-      constructor <;> nlinarith
-    · rw [min_eq_right hab, max_eq_left hab]
-      constructor <;> nlinarith
-
+    constructor <;> grind
+  · obtain ⟨m, rfl⟩ : ∃ m, n = m + 1 := ⟨n - 1, by omega⟩
+    rw [natCast_succ_sub_one]
+    apply lin_between
+    · have : (0 : Nat) < m := by omega
+      exact_mod_cast (Rat.natCast_lt_natCast.mpr this)
+    · exact Rat.natCast_nonneg
+    · exact Rat.natCast_le_natCast.mpr (by omega)
 
 theorem foldl_min_le (l : List Rat) (acc : Rat) :
     l.foldl min acc ≤ acc ∧ (∀ x ∈ l, l.foldl min acc ≤ x) ∧ (l.foldl min acc = acc ∨ l.foldl min acc ∈ l) := by
@@ -60,11 +65,11 @@ theorem foldl_min_le (l : List Rat) (acc : Rat) :
   | cons y ys ih =>
     obtain ⟨h1, h2, h3⟩ := ih (min acc y)
     simp only [List.foldl_cons, List.mem_cons, forall_eq_or_imp]
-    refine ⟨le_trans h1 (min_le_left _ _), ⟨le_trans h1 (min_le_right _ _), h2⟩, ?_⟩
+    refine ⟨by grind, ⟨by grind, h2⟩, ?_⟩
     rcases h3 with h3 | h3
-    · rcases min_choice acc y with hc | hc
-      · left; rw [h3, hc]
-      · right; left; rw [h3, hc]
+    · rcases Rat.le_total (a := acc) (b := y) with hc | hc
+      · left; grind
+      · right; left; grind
     · right; right; exact h3
 
 theorem foldl_max_ge (l : List Rat) (acc : Rat) :
@@ -74,11 +79,11 @@ theorem foldl_max_ge (l : List Rat) (acc : Rat) :
   | cons y ys ih =>
     obtain ⟨h1, h2, h3⟩ := ih (max acc y)
     simp only [List.foldl_cons, List.mem_cons, forall_eq_or_imp]
-    refine ⟨le_trans (le_max_left _ _) h1, ⟨le_trans (le_max_right _ _) h1, h2⟩, ?_⟩
+    refine ⟨by grind, ⟨by grind, h2⟩, ?_⟩
     rcases h3 with h3 | h3
-    · rcases max_choice acc y with hc | hc
-      · left; rw [h3, hc]
-      · right; left; rw [h3, hc]
+    · rcases Rat.le_total (a := acc) (b := y) with hc | hc
+      · right; left; grind
+      · left; grind
     · right; right; exact h3
 
 /-- `[min(l), max(l)]` bounds every element of `l` and both ends are elements of `l` -/
